@@ -14,11 +14,15 @@ Definition op_params (o : op) : list Z :=
 Definition enc_net (n : net) : list Z :=
   op_code (nop n) :: ndest n :: Z.of_nat (length (nargs n)) :: nargs n ++ op_params (nop n).
 
-Definition run_pass (p : Z) (nl : netlist) : netlist :=
+(* [floor]: identifiers below it are never reused for temporaries (the harness
+   passes fresh(original design), so that in a pass sequence a temporary never
+   takes the identifier of a wire removed by direct_connect_outputs) *)
+Definition run_pass (floor : Z) (p : Z) (nl : netlist) : netlist :=
+  let nx := Z.max floor (fresh nl) in
   match p with
-  | 1 => nand_synth nl | 2 => and_inverter_synth nl
-  | 3 => two_way_concat nl | 4 => one_bit_selects nl
-  | 5 => direct_connect_outputs nl | 6 => two_way_fanout nl
+  | 1 => apply_rule_at nx nand_rule nl | 2 => apply_rule_at nx aig_rule nl
+  | 3 => apply_rule_at nx two_way_concat_rule nl | 4 => apply_rule_at nx one_bit_selects_rule nl
+  | 5 => direct_connect_outputs nl | 6 => two_way_fanout_at nx nl
   | _ => nl
   end.
 Definition pre_pass (p : Z) (nl : netlist) : bool :=
@@ -31,10 +35,10 @@ Definition post_pass (p : Z) (nl : netlist) : bool :=
   | _ => true
   end.
 
-Fixpoint run_passes (ps : list Z) (nl : netlist) : netlist * bool :=
+Fixpoint run_passes (floor : Z) (ps : list Z) (nl : netlist) : netlist * bool :=
   match ps with
   | [] => (nl, true)
-  | p :: r => let '(nl', ok) := run_passes r (run_pass p nl) in (nl', pre_pass p nl && ok)
+  | p :: r => let '(nl', ok) := run_passes floor r (run_pass floor p nl) in (nl', pre_pass p nl && ok)
   end.
 
 (* spec_case without its wfb row (wfb is quadratic with a large constant):
@@ -47,15 +51,15 @@ Definition ref_case (nl : netlist) (dflt : Z) (regmap : list (Z * Z))
   map (fun p => smems st (fst p) (snd p)) probes :: map (probe nl) vs.
 
 (* row 0: [pre; post(last pass); sanity_block; #wires; #nets; wfb (2 = not
-   evaluated: more than 120 nets)]; then the wires, the nets, and ref_case of
+   evaluated: more than 60 nets)]; then the wires, the nets, and ref_case of
    the model's result *)
 Definition c09_case (ps : list Z) (nl : netlist) (dflt : Z) (regmap : list (Z * Z))
     (memmap : list (Z * list (Z * Z))) (inss : list (list (Z * Z)))
     (probes : list (Z * Z)) : list (list Z) :=
-  let '(nl', pre) := run_passes ps nl in
+  let '(nl', pre) := run_passes (fresh nl) ps nl in
   [b2z pre; b2z (post_pass (last ps 0) nl'); b2z (sanity_block nl');
    Z.of_nat (length (wires nl')); Z.of_nat (length (nets nl'));
-   if (length (nets nl') <=? 120)%nat then b2z (wfb nl') else 2]
+   if (length (nets nl') <=? 60)%nat then b2z (wfb nl') else 2]
   :: map enc_wire (wires nl') ++ map enc_net (nets nl')
   ++ ref_case nl' dflt regmap memmap inss probes.
 
